@@ -14,6 +14,8 @@ for d in $SRC/C*-*; do
   cmd=$(grep -o "go test.*" $d/demo.txt | head -1 | sed 's/   *(.*$//')
   sub=$(grep -o "cd [^ ]* &&" $d/demo.txt | head -1 | awk '{print $2}')
   [ -z "$sub" ] && sub=.
+  case "$cmd" in *" .") sub=$dir;; esac   # "go test ... ." is meant to run inside the demo's directory
+  [ -n "$ONLY" ] && { case "$id" in $ONLY) ;; *) continue;; esac; }
   cp $d/demo_test.go $WT/$dir/zz_demo_test.go
   base=$(cd $WT/$sub && eval "timeout 300 $cmd" 2>&1 | tail -3 | tr '\n' ' ')
   case "$base" in *ok*) b=pass;; *) b="FAIL($base)";; esac
